@@ -61,3 +61,6 @@ NOT_APPLICABLE = {
     pid: "not claimed yet: model/theorems/correspondence for this property are still being built (see DESIGN.md section 8); the technique applies"
     for pid in ["C%02d" % i for i in range(1, 20)]
 }
+
+# properties whose check is complete (theorems proved, correspondence wired) and therefore claimed in MANIFEST.json
+CLAIMED = ["C01", "C02", "C06", "C09"]
